@@ -741,6 +741,25 @@ pub fn run(fields: &[&str]) -> String {
             let r = guarded(|| enc::s(&textwrap::refill(&filled, o2.options())));
             format!("{}\t{}\t{}", enc::s(&filled), r, fill_enc(&para, &o3))
         }
+        // the std string primitives the model re-implements (Model/Chars.v)
+        "std" => {
+            let t = ds(fields[1]);
+            guarded(|| {
+                [
+                    enc::strs(&t.lines().collect::<Vec<_>>()),
+                    enc::strs(&t.split('\n').collect::<Vec<_>>()),
+                    enc::strs(&t.split("\r\n").collect::<Vec<_>>()),
+                    enc::strs(&t.split_terminator('\n').collect::<Vec<_>>()),
+                    enc::s(t.trim_end_matches(' ')),
+                    enc::s(t.trim()),
+                    enc::s(t.trim_end()),
+                    t.len().to_string(),
+                    (if t.ends_with('\n') { "1" } else { "0" }).to_string(),
+                    (if t.ends_with("\r\n") { "1" } else { "0" }).to_string(),
+                ]
+                .join("\t")
+            })
+        }
         "dedent18" => {
             let t = ds(fields[1]);
             let p = ds(fields[2]);
@@ -1200,6 +1219,14 @@ pub fn generate<W: Write>(mode: &str, r: &mut Rng, out: &mut W) {
                 enc::s(r.ps(&gaps)),
                 enc::s(r.ps(&gaps)),
             ]
+        }
+        "std" => {
+            let t = match r.below(3) {
+                0 => gen::text_over(r, &["a", " ", "\n", "\r", "\r\n", "\t", "\u{a0}", "\u{2028}", "\u{85}", "é", "\u{3000}", "\x0b", "\x0c"], 10),
+                1 => gen::raw_text(r, 12),
+                _ => gen::structured_text(r, 4, 4, 0, true),
+            };
+            vec!["std".into(), enc::s(&t)]
         }
         "ffx" | "ofx" => {
             // arbitrary doubles, non-finite included: no-panic and shape only
